@@ -20,3 +20,10 @@ Theorem C14_prefers_last_listed : forall k cur outs a b,
   In a cur -> In b cur -> outs = [a; b] -> first_repeatable k cur outs = Some b.
 Proof. exact prefers_last_listed. Qed.
 Print Assumptions C14_prefers_last_listed.
+
+(* sequence input modes: 2 = visible-backspaced; in the hidden modes the typed keys are kept from the OS, so nothing
+   is repeated while the sequence is active *)
+Theorem C14_hidden_sequence_suppresses_repeat : forall cfg k code,
+  sq_active (k_seq k) = true -> sq_mode (k_seq k) <> 2 -> handle_repeat cfg k code = Ok [].
+Proof. exact hidden_sequence_suppresses_repeat. Qed.
+Print Assumptions C14_hidden_sequence_suppresses_repeat.
